@@ -75,10 +75,15 @@ def rst(
     if nl or ("\n" in answer and nl is None):
         answer += "\n" + " " * indent
 
+    # Triple double-quotes inside the text would end the docstring that this
+    # output is placed in; escape them.
+    answer = answer.replace('"""', '\\"\\"\\"')
+
     # If the text ends in a double-quote, append a period.
     # This ensures that we do not get a parse error when this output is
-    # followed by triple-quotes.
-    if answer.endswith('"'):
+    # followed by triple-quotes. A trailing backslash would escape the first
+    # of those quotes, so it gets the same treatment.
+    if answer.endswith('"') or answer.endswith("\\"):
         answer += "."
 
     # Done; return the answer.
